@@ -1,5 +1,6 @@
 """C09 -- chunking / windowing / splitting helpers (structural clauses)."""
 import ast
+import copy
 from sa.index import AnalysisError, FuncInfo
 from sa.paths import call_name
 from rules.common import returned_values, list_delegation, txt, paths_of, loc, tests_on, Quiet
@@ -211,8 +212,43 @@ def run(ctx):
                 ok = len(incs) == len(ys) or (last and len(incs) <= len(ys))
                 ctx.ob('T2.split', sp.fq, 'within one iteration the split counter is incremented exactly when a group is yielded',
                        ok, loc=loc(sp, (incs + ys)[0].node), path=p.describe() if not ok else None)
+    from rules.common import check_no_truthiness
+    for prm in ('sep', 'maxsplit'):
+        if prm not in sp.params:
+            raise AnalysisError('anchor vanished: parameter %s of split_iter' % prm)
+        check_no_truthiness(ctx, sp, prm, why='split([0, 1, 0], 0) splits on 0; maxsplit=0 means no split at all')
     # chunk_ranges: every yielded end is clamped
     cr = prog.func(M + '.chunk_ranges')
+    # T25.stride: chunks start `chunk_size - overlap_size` apart; the alignment of the first chunk is computed modulo that same
+    # stride (a different modulus puts every later chunk off the aligned boundaries)
+    steps = [n.args[2] for n in ast.walk(cr.node) if isinstance(n, ast.Call) and call_name(n) == 'range' and len(n.args) == 3]
+    mods = [n for n in ast.walk(cr.node) if isinstance(n, ast.BinOp) and isinstance(n.op, ast.Mod) and
+            any(isinstance(x, ast.Name) and x.id == 'input_offset' for x in ast.walk(n.left))]
+    if not steps or not mods:
+        ctx.unknown('T25.stride', cr.fq, 'no range(..., step) loop / no `input_offset %% ...` alignment found', cr.loc)
+    else:
+        wc, _ = paths_of(prog, cr)
+        assigns = {}
+        for n in ast.walk(cr.node):
+            if isinstance(n, ast.Assign) and len(n.targets) == 1 and isinstance(n.targets[0], ast.Name):
+                assigns.setdefault(n.targets[0].id, []).append(n.value)
+
+        def resolve(e):
+            # a single-assignment local stands for its value
+            e = copy.deepcopy(e)
+            for _ in range(4):
+                class R(ast.NodeTransformer):
+                    def visit_Name(self, nd):
+                        vs = assigns.get(nd.id)
+                        if vs and len(vs) == 1 and nd.id not in cr.params:
+                            return copy.deepcopy(vs[0])
+                        return nd
+                e = R().visit(e)
+            return txt(e).replace('(', '').replace(')', '')
+        st = resolve(steps[0])
+        for m in mods:
+            ctx.ob('T25.stride', cr.fq, 'the alignment of the first chunk is computed modulo the stride between chunk starts (`%s`)' % st,
+                   resolve(m.right) == st, loc=loc(cr, m), detail='modulus `%s`' % resolve(m.right))
     def is_stop_expr(e):
         return isinstance(e, ast.BinOp) and isinstance(e.op, ast.Add) and {txt(e.left), txt(e.right)} == {'input_offset', 'input_size'}
     # the end of the input, by role: a local assigned once, before any rebinding of input_offset, from input_offset + input_size
